@@ -353,3 +353,58 @@ def overlay_alignment(tier, seed):
 
 native_check("C10", "overlays-reach-the-stage-they-prefix", "bounded", overlay_alignment,
              doc="real cmds_to_specs / prep_env_subproc with per-command overlays on small pipelines")
+
+
+def overlay_stacks(tier, seed):
+    """every stack of <= 3 (thorough 4) overlays / swaps over two variables (a value, the DELETE_VAR mask, or not mentioned): the mapping a child would
+    get (detype()) says for each variable exactly what a read in the shell says at that moment - innermost scope first"""
+    import itertools
+    from xonsh.environ import Env, DELETE_VAR
+    from xonsh.built_ins import XSH
+
+    saved = XSH.env
+    failures, n, samples = [], 0, []
+    depth = 3 if tier == "quick" else 4
+    choices = [None, "v", "mask"]
+    layers = [(kind, x, y) for kind in ("overlay", "swap") for x in choices for y in choices if not (x is None and y is None)]
+    try:
+        for d in range(1, depth + 1):
+            for stack in itertools.product(layers, repeat=d):
+                n += 1
+                env = Env({"X": "base-x", "PATH": ["/bin"]})
+                XSH.env = env
+                obs = None
+
+                def nest(i):
+                    nonlocal obs
+                    if i == d:
+                        child = env.detype()
+                        for k in ("X", "Y"):
+                            try:
+                                seen = env[k]
+                            except KeyError:
+                                seen = None
+                            if child.get(k) != seen:
+                                obs = "inside %r: the shell reads $%s as %r, the child's mapping has %r" % (list(stack), k, seen, child.get(k))
+                        return
+                    kind, x, y = stack[i]
+                    vals = {k: (DELETE_VAR if v == "mask" else "%s%d-%s" % (kind[0], i, k.lower())) for k, v in (("X", x), ("Y", y)) if v is not None}
+                    with (env.swap(overlay=vals) if kind == "overlay" else env.swap(vals)):
+                        nest(i + 1)
+
+                try:
+                    nest(0)
+                except Exception as e:  # noqa
+                    obs = "%s: %s" % (type(e).__name__, e)
+                if obs and len(failures) < 5:
+                    failures.append({"clause": "the child's mapping reflects the values at launch time, scoped overlays included (innermost first)", "inputs": {"scopes": [list(s) for s in stack]}, "observed": obs})
+                elif not obs and len(samples) < 3 and d == depth:
+                    samples.append({"scopes": [list(s) for s in stack]})
+    finally:
+        XSH.env = saved
+    return {"kind": "bounded", "evaluations": n, "distinct_nontrivial": n, "failures": failures, "exhaustive": False,
+            "bound": "all stacks of <= %d scopes out of 16 (overlay | swap) x (value | mask | absent) on two variables" % depth,
+            "domain": "real Env.swap / overlays / detype on a real Env", "samples": samples}
+
+
+native_check("C10", "the-child-mapping-agrees-with-reads-under-every-overlay-stack", "bounded", overlay_stacks, doc="nested overlays / swaps on the same variables")
